@@ -1,6 +1,9 @@
 import GcArena.Proofs.Debt
 import GcArena.Proofs.MarkDebt
 import GcArena.Proofs.Sleep
+import GcArena.Proofs.CycleRun
+import GcArena.Proofs.SelfDriven
+import GcArena.Proofs.LegacyLemmas
 /-!
 # C09 — Pacing: debt-driven calls pay their debt, cycles complete, sleep is honoured
 
@@ -8,7 +11,10 @@ Exact rational arithmetic (`Rat`); f64 rounding is modelled, not verified (DESIG
 
 Machinery: the accounting invariant `Acc` (Proofs/Accounting.lean, over all histories:
 `acc_run` in Proofs/AccountingRun.lean), the ρ-bound and the stop-the-world loop lemmas
-(Proofs/Pacing.lean), sleep over operation sequences (Proofs/Sleep.lean).
+(Proofs/Pacing.lean), sleep over operation sequences (Proofs/Sleep.lean), one cycle over
+operation sequences and the wake-up invariant (Proofs/CycleRun.lean), the pre-repair
+definitions (Model/Legacy.lean, Proofs/LegacyLemmas.lean).  Helper lemmas of this file are
+`private` (they are not property obligations).
 -/
 namespace GcArena.C09
 
@@ -57,7 +63,7 @@ theorem empty_arena_never_collects (c : Ctx) (root : List Slot) (stop : Stop) (f
   simp [Ctx.doCollection, this]
 
 /-- The invariant of a run state outside callbacks, in the form the collector lemmas take. -/
-theorem run_cinv (n : Nat) (ops : List Op) (halive : ((Arena.new n).run ops).alive = true)
+private theorem run_cinv (n : Nat) (ops : List Op) (halive : ((Arena.new n).run ops).alive = true)
     (hcb : ((Arena.new n).run ops).cb = none) :
     CInv ((Arena.new n).run ops).ctx ((Arena.new n).run ops).root [] := by
   have hi := inv_run n ops halive
@@ -102,11 +108,11 @@ def lastOne : List Op := [
   .enter .mutate, .alloc true [none], .leave,
   .collect .finishMarking .sweep none (some [.wake, .markStep none, .markBreak, .toSweep]) ]
 
-theorem lastOne_metrics : ((Arena.new 1).run lastOne).ctx.metrics =
+private theorem lastOne_metrics : ((Arena.new 1).run lastOne).ctx.metrics =
     { pacing := Pacing.stopTheWorld, totalGcs := 1, wakeup := 0, artificial := 0, allocated := 1,
       dropped := 0, freed := 0, marked := 0, traced := 0, remembered := 0, underflow := false } := by rfl
 
-theorem lastOne_debt : 0 < ((Arena.new 1).run lastOne).ctx.metrics.allocationDebt := by
+private theorem lastOne_debt : 0 < ((Arena.new 1).run lastOne).ctx.metrics.allocationDebt := by
   rw [lastOne_metrics]
   unfold Metrics.allocationDebt Metrics.cycleDebits Metrics.cycleCredits Pacing.stopTheWorld
   simp only
@@ -120,6 +126,42 @@ example : CInv ((Arena.new 1).run lastOne).ctx ((Arena.new 1).run lastOne).root 
   ⟨run_cinv 1 lastOne (by decide) (by decide),
    ⟨by rw [lastOne_metrics]; rfl, by rw [lastOne_metrics]; rfl, by rw [lastOne_metrics]; rfl,
     by rw [lastOne_metrics]; rfl, by rw [lastOne_metrics]; rfl⟩, lastOne_debt⟩
+
+/-- **Witness of the repaired defect D5**, by name.  On `lastOne` every hypothesis of the
+    stop-the-world clause holds (invariant, all work factors zero, positive debt), and
+    * over the **pre-repair** loop (`Ctx.doCollectionLegacy`, Model/Legacy.lean: the debt test
+      without "not parked in `Sweep`") `collect_debt` sweeps the only allocation away and returns
+      **Sweeping** with nothing left to sweep and an empty arena — so the clause is false of the
+      pre-repair loop;
+    * over the repaired loop it returns Sleeping (`stop_the_world`).
+    A regression of the repair makes the implementation agree with the first half again. -/
+theorem pinned_stw_witness :
+    (CInv ((Arena.new 1).run lastOne).ctx ((Arena.new 1).run lastOne).root [] ∧
+      ZeroWork ((Arena.new 1).run lastOne).ctx.metrics.pacing ∧
+      0 < ((Arena.new 1).run lastOne).ctx.metrics.allocationDebt) ∧
+    (∃ c', ((Arena.new 1).run lastOne).ctx.doCollectionLegacy ((Arena.new 1).run lastOne).root
+              .payDebt .full none = (c', .returned) ∧
+            c'.phase = .sweep ∧ c'.rest = [] ∧ c'.metrics.totalGcs = 0) ∧
+    ¬ (∀ (c : Ctx) (root : List Slot) (c' : Ctx), CInv c root [] → ZeroWork c.metrics.pacing →
+        0 < c.metrics.allocationDebt →
+        c.doCollectionLegacy root .payDebt .full none = (c', .returned) → c'.phase = .sleep) ∧
+    (∀ c', ((Arena.new 1).run lastOne).ctx.doCollection ((Arena.new 1).run lastOne).root
+              .payDebt .full none = (c', .returned) → c'.phase = .sleep) := by
+  have h0 := run_cinv 1 lastOne (by decide) (by decide)
+  have hz : ZeroWork ((Arena.new 1).run lastOne).ctx.metrics.pacing :=
+    ⟨by rw [lastOne_metrics]; rfl, by rw [lastOne_metrics]; rfl, by rw [lastOne_metrics]; rfl,
+     by rw [lastOne_metrics]; rfl, by rw [lastOne_metrics]; rfl⟩
+  have hd := lastOne_debt
+  have hcall := doCollectionLegacy_sweep_last (c := ((Arena.new 1).run lastOne).ctx)
+    (root := ((Arena.new 1).run lastOne).root) (stop := .full) (fault := none)
+    (by decide) (by decide) (by decide) (by simpa [Metrics.hasDebt] using hd) (by decide)
+  refine ⟨⟨h0, hz, hd⟩, ⟨_, hcall, by decide, by decide, by decide⟩, ?_, ?_⟩
+  · intro hall
+    have := hall _ _ _ h0 hz hd hcall
+    revert this
+    decide
+  · intro c' hr
+    exact doCollection_stw h0 hz hd hr
 
 /-! ### The ρ-bound -/
 
@@ -195,6 +237,54 @@ theorem cycles_complete (n : Nat) (ops : List Op) (ρ : Rat) (Aw H A' : Nat) (fa
     · exact absurd (rho_bound n ops ρ Aw H A' fault c' halive hcb hp hA hH hwoke hr hs hz)
         (Rat.not_lt.mpr hmany)
 
+/-- **ρ-bound over a history** — the split is not free here, it is read off the history.
+    `pre` leads to a sleeping state `a0` with positive debt, outside callbacks; `wakeOp` is a
+    self-driven debt-driven collection call (`collect_debt`, `mark_debt`, `cycle_debt`) executed
+    there, so it wakes the collector (first conclusion: the oldest step it appends is `'W'`);
+    `post` is **any** further operation sequence — mutator operations, collection calls of every
+    kind, self-driven or replayed, `finalize` / `start_sweeping` included — that changes no pacing
+    and makes no negative `adjust_debt` (`Op.keepsCycle`), and during `wakeOp`-and-`post` no cycle
+    completes: no `'Z'` (the `Sweep → Sleep` switch) is appended to the step log.  Then
+    * `H` := `total_gcs` of `a0` — the allocations held when the cycle woke (the wake itself does
+      not change it);
+    * `A'` := `allocsIn a0 (wakeOp :: post)` — the number of `alloc` operations accepted since —
+      and that is exactly the growth of the `allocated` counter (second conclusion);
+    and if a `cycle_debt` call made after `post` returns with the cycle unfinished and the arena
+    non-empty, then `A' (1 - ρ) < ρ H`. -/
+theorem rho_bound_run (n : Nat) (pre post : List Op) (m : Method) (k : Cont) (wfault : TraceFault)
+    (a0 a2 : Arena) (ha0 : a0 = (Arena.new n).run pre)
+    (ha2 : a2 = (Arena.new n).run (pre ++ .collect m k wfault none :: post))
+    (hm : (Arena.methodArgs m).1 = .payDebt)
+    (hcb0 : a0.cb = none) (hs : a0.ctx.phase = .sleep) (hd : 0 < a0.ctx.metrics.allocationDebt)
+    (hpost : ∀ op, op ∈ post → op.keepsCycle = true)
+    (hal : a2.alive = true) (hcb : a2.cb = none)
+    (new : List Char) (hsteps : a2.ctx.steps = new ++ a0.ctx.steps) (hz : 'Z' ∉ new)
+    (ρ : Rat) (hp : RhoPacing a0.ctx.metrics.pacing ρ) (fault : TraceFault) (c' : Ctx)
+    (hr : a2.ctx.doCollection a2.root .payDebt .finishCycle fault = (c', .returned))
+    (hns : c'.phase ≠ .sleep) (hne : c'.metrics.totalGcs ≠ 0) :
+    (∃ w, (a0.step (.collect m k wfault none)).1.ctx.steps = w ++ 'W' :: a0.ctx.steps) ∧
+    a2.ctx.metrics.allocated
+      = a0.ctx.metrics.allocated + allocsIn a0 (.collect m k wfault none :: post) ∧
+    ((allocsIn a0 (.collect m k wfault none :: post) : Nat) : Rat) * (1 - ρ)
+      < ρ * (a0.ctx.metrics.totalGcs : Rat) := by
+  have hrun : a2 = a0.run (.collect m k wfault none :: post) := by
+    rw [ha2, ha0, run_append]
+  have hal0 : a0.alive = true := by
+    cases hx : a0.alive with
+    | true => rfl
+    | false => rw [hrun, run_dead hx] at hal; rw [hx] at hal; cases hal
+  have h0 : Inv a0 := by rw [ha0] at hal0 ⊢; exact inv_run n pre hal0
+  have hacc0 : Acc a0.ctx := by rw [ha0]; exact acc_run n pre
+  have hk : ∀ op, op ∈ (Op.collect m k wfault none :: post) → op.keepsCycle = true := by
+    intro op hop
+    simp only [List.mem_cons] at hop
+    rcases hop with rfl | hop
+    · rfl
+    · exact hpost op hop
+  rw [hrun] at hal hcb hsteps hr ⊢
+  obtain ⟨r1, r2⟩ := rho_bound_from_sleep h0 hacc0 hs hd _ hk hal hcb new hsteps hz hp hr hns hne
+  exact ⟨collect_wakes h0 hcb0 hs hd m hm k wfault, r1, r2⟩
+
 /-! ### Sleep is honoured -/
 
 /-- What the end of a cycle schedules: the next one wakes after
@@ -213,18 +303,21 @@ theorem sleep_schedule (c : Ctx) (hasSlept : Bool) :
 /-- **Sleep is honoured**, one state.  In any sleeping state of any history with no artificial
     debt: while the allocations made since the cycle ended do not exceed the wake-up amount every
     debt-driven call returns at once with the state unchanged and the reported debt is zero; once
-    they exceed it (and the arena holds something) the reported debt is positive — exactly the
-    excess. -/
+    they exceed it the reported debt is positive — exactly the excess.  (The arena then holds
+    something: asleep, `allocated ≤ total_gc_count` and the wake-up amount is never negative —
+    the run invariant `WInv`, Proofs/CycleRun.lean.) -/
 theorem sleep_honoured (n : Nat) (ops : List Op) (root : List Slot) (stop : Stop) (fault : TraceFault)
     (hs : ((Arena.new n).run ops).ctx.phase = .sleep)
     (hart : ((Arena.new n).run ops).ctx.metrics.artificial = 0) :
     let c := ((Arena.new n).run ops).ctx
     ((c.metrics.allocated : Rat) ≤ c.metrics.wakeup →
       c.doCollection root .payDebt stop fault = (c, .returned) ∧ c.metrics.allocationDebt = 0) ∧
-    (c.metrics.wakeup < (c.metrics.allocated : Rat) → c.metrics.totalGcs ≠ 0 →
+    (c.metrics.wakeup < (c.metrics.allocated : Rat) →
       0 < c.metrics.allocationDebt ∧
-      c.metrics.allocationDebt = (c.metrics.allocated : Rat) - c.metrics.wakeup) :=
-  GcArena.sleep_honoured root stop fault hs (acc_run n ops) hart
+      c.metrics.allocationDebt = (c.metrics.allocated : Rat) - c.metrics.wakeup) := by
+  intro c
+  obtain ⟨p1, p2⟩ := GcArena.sleep_honoured root stop fault hs (acc_run n ops) hart
+  exact ⟨p1, fun hlt => p2 hlt ((winv_run n ops).nonempty hs hlt)⟩
 
 /-- **Sleep is honoured**, over time.  From any sleeping state of any history with no artificial
     debt, over any further sequence of mutator operations (anything but `set_pacing` /
@@ -278,11 +371,11 @@ def rhoDemo : List Op := [
   .enter .mutate, .alloc true [none], .leave,
   .collect .cycleDebt .drop none (some [.toSweep, .sweepStep, .sweepStep, .sweepStep, .sweepStep]) ]
 
-theorem rhoDemo_metrics : ((Arena.new 1).run rhoDemo).ctx.metrics =
+private theorem rhoDemo_metrics : ((Arena.new 1).run rhoDemo).ctx.metrics =
     { pacing := halfPacing, totalGcs := 1, wakeup := 0, artificial := 0 + (-3), allocated := 5,
       dropped := 4, freed := 4, marked := 0, traced := 0, remembered := 0, underflow := false } := by rfl
 
-theorem rhoDemo_no_debt : ((Arena.new 1).run rhoDemo).ctx.metrics.hasDebt = false := by
+private theorem rhoDemo_no_debt : ((Arena.new 1).run rhoDemo).ctx.metrics.hasDebt = false := by
   rw [rhoDemo_metrics]
   simp only [Metrics.hasDebt, decide_eq_false_iff_not]
   unfold Metrics.allocationDebt Metrics.cycleDebits Metrics.cycleCredits halfPacing
@@ -306,6 +399,93 @@ example : ∃ (c' : Ctx),
   · rw [rhoDemo_metrics]; constructor <;> (unfold halfPacing; simp only; grind)
   · rw [rhoDemo_metrics]; simp only; grind
   · simp [Ctx.doCollection, rhoDemo_no_debt]
+
+/-! Non-vacuity of `rho_bound_run`: `rhoPre` (four unreachable allocations, three forgiven) leaves
+    the collector asleep in debt; the self-driven `mark_debt` wakes and marks; `rhoPost` allocates
+    once more and sweeps four of the five away: the debt is paid with the cycle unfinished. -/
+
+def rhoPre : List Op := [
+  .setPacing halfPacing,
+  .enter .mutate, .alloc true [none], .alloc true [none], .alloc true [none], .alloc true [none], .leave,
+  .adjustDebt (-3) ]
+
+def rhoPost : List Op := [
+  .enter .mutate, .alloc true [none], .leave,
+  .collect .cycleDebt .drop none (some [.toSweep, .sweepStep, .sweepStep, .sweepStep, .sweepStep]) ]
+
+private theorem rhoPre_metrics : ((Arena.new 1).run rhoPre).ctx.metrics =
+    { pacing := halfPacing, totalGcs := 4, wakeup := 0, artificial := 0 + (-3), allocated := 4,
+      dropped := 0, freed := 0, marked := 0, traced := 0, remembered := 0, underflow := false } := by rfl
+
+private theorem rhoPre_debt : 0 < ((Arena.new 1).run rhoPre).ctx.metrics.allocationDebt := by
+  rw [rhoPre_metrics]
+  unfold Metrics.allocationDebt Metrics.cycleDebits Metrics.cycleCredits halfPacing
+  simp only
+  grind
+
+/-- The self-driven `mark_debt` in that state is the replay `W r b` (its debt tests compare exact
+    rationals, which the kernel does not evaluate: `Proofs/SelfDriven.lean`). -/
+private theorem rhoWake_eq :
+    ((Arena.new 1).run rhoPre).step (.collect .markDebt .drop none none) =
+    ((Arena.new 1).run rhoPre).step
+      (.collect .markDebt .drop none (some [.wake, .markStep none, .markBreak])) := by
+  have hd : ((Arena.new 1).run rhoPre).ctx.metrics.hasDebt = true := by
+    simpa [Metrics.hasDebt] using rhoPre_debt
+  apply step_collect_self_eq_oracle (c := (((((Arena.new 1).run rhoPre).ctx.switch .mark).markOne
+      ((Arena.new 1).run rhoPre).root none).1.markOne ((Arena.new 1).run rhoPre).root none).1) (by decide)
+  · exact doCollection_markDebt_wake (by decide) hd (Prod.ext rfl (by decide)) hd (by decide)
+      (Prod.ext rfl (by decide))
+  · rfl
+
+private theorem rhoRun_eq :
+    (Arena.new 1).run (rhoPre ++ .collect .markDebt .drop none none :: rhoPost) =
+    (Arena.new 1).run (rhoPre ++ .collect .markDebt .drop none
+      (some [.wake, .markStep none, .markBreak]) :: rhoPost) := by
+  rw [run_append, run_append]
+  simp only [Arena.run]
+  rw [rhoWake_eq]
+
+private theorem rhoRun_metrics :
+    ((Arena.new 1).run (rhoPre ++ .collect .markDebt .drop none none :: rhoPost)).ctx.metrics =
+    { pacing := halfPacing, totalGcs := 1, wakeup := 0, artificial := 0 + (-3), allocated := 5,
+      dropped := 4, freed := 4, marked := 0, traced := 0, remembered := 0, underflow := false } := by
+  rw [rhoRun_eq]; rfl
+
+/-- Every hypothesis of `rho_bound_run` holds on this history with `ρ = 1/2` (`H = 4`, `A' = 1`);
+    the final `cycle_debt` returns Sweeping with one allocation left. -/
+example : ∃ (new : List Char) (c' : Ctx),
+    let a0 := (Arena.new 1).run rhoPre
+    let a2 := (Arena.new 1).run (rhoPre ++ .collect .markDebt .drop none none :: rhoPost)
+    (Arena.methodArgs .markDebt).1 = .payDebt ∧ a0.cb = none ∧ a0.ctx.phase = .sleep ∧
+    0 < a0.ctx.metrics.allocationDebt ∧ (∀ op, op ∈ rhoPost → op.keepsCycle = true) ∧
+    a2.alive = true ∧ a2.cb = none ∧ a2.ctx.steps = new ++ a0.ctx.steps ∧ 'Z' ∉ new ∧
+    RhoPacing a0.ctx.metrics.pacing (1/2) ∧
+    a2.ctx.doCollection a2.root .payDebt .finishCycle none = (c', .returned) ∧
+    c'.phase ≠ .sleep ∧ c'.metrics.totalGcs ≠ 0 ∧
+    a0.ctx.metrics.totalGcs = 4 ∧ allocsIn a0 (.collect .markDebt .drop none none :: rhoPost) = 1 := by
+  have hnd : ((Arena.new 1).run (rhoPre ++ .collect .markDebt .drop none none :: rhoPost)).ctx.metrics.hasDebt
+      = false := by
+    rw [rhoRun_metrics]
+    simp only [Metrics.hasDebt, decide_eq_false_iff_not]
+    unfold Metrics.allocationDebt Metrics.cycleDebits Metrics.cycleCredits halfPacing
+    simp only
+    grind
+  have hallocs : allocsIn ((Arena.new 1).run rhoPre) (.collect .markDebt .drop none none :: rhoPost) = 1 := by
+    show (if ((Arena.new 1).run rhoPre).allocates (.collect .markDebt .drop none none) then 1 else 0)
+      + allocsIn (((Arena.new 1).run rhoPre).step (.collect .markDebt .drop none none)).1 rhoPost = 1
+    rw [rhoWake_eq]
+    decide
+  refine ⟨['x', 'x', 'x', 'x', 'S', 'b', 'r', 'W'],
+    ((Arena.new 1).run (rhoPre ++ .collect .markDebt .drop none none :: rhoPost)).ctx, ?_⟩
+  refine ⟨rfl, by decide, by decide, rhoPre_debt, by decide, ?_, ?_, ?_, by decide, ?_, ?_, ?_, ?_,
+    by decide, hallocs⟩
+  · rw [rhoRun_eq]; decide
+  · rw [rhoRun_eq]; decide
+  · rw [rhoRun_eq]; decide
+  · rw [rhoPre_metrics]; constructor <;> (unfold halfPacing; simp only; grind)
+  · simp [Ctx.doCollection, hnd]
+  · rw [rhoRun_eq]; decide
+  · rw [rhoRun_eq]; decide
 
 /-- `Pacing::DEFAULT` satisfies the hypothesis with `ρ = 0.55`. -/
 example : RhoPacing Pacing.default (55/100) := by
